@@ -181,6 +181,8 @@ def main(tier, seed):
     r11.c03_factorization_rules(rep, ap, rng, tier, PID)
     import r10
     r10.c03_eigh_mixed_ties(rep, ap, rng, tier)
+    import r12
+    r12.c03_reduce_rules(rep, ap, rng, tier, PID)
     return rep.finish()
 
 
